@@ -66,40 +66,36 @@ impl InkList {
         ink_list
     }
 
-    fn get_ordered_items(&self) -> Vec<(&InkListItem, &i32)> {
+    /// Total order on the items of a list: by value, then origin name, then item name.
+    /// The items live in a hash map, so every operation whose result depends on an order
+    /// (printing, minimum / maximum with tied values, random pick) goes through this.
+    pub(crate) fn item_order(
+        a: (&InkListItem, &i32),
+        b: (&InkListItem, &i32),
+    ) -> std::cmp::Ordering {
+        a.1.cmp(b.1)
+            .then_with(|| a.0.get_origin_name().cmp(&b.0.get_origin_name()))
+            .then_with(|| a.0.get_item_name().cmp(b.0.get_item_name()))
+    }
+
+    pub(crate) fn get_ordered_items(&self) -> Vec<(&InkListItem, &i32)> {
         let mut ordered: Vec<_> = self.items.iter().collect();
-        ordered.sort_by(|a, b| {
-            if a.1 == b.1 {
-                a.0.get_origin_name().cmp(&b.0.get_origin_name())
-            } else {
-                a.1.cmp(b.1)
-            }
-        });
+        ordered.sort_by(|a, b| Self::item_order(*a, *b));
         ordered
     }
 
     pub fn get_max_item(&self) -> Option<(&InkListItem, i32)> {
-        let mut max: Option<(&InkListItem, i32)> = None;
-
-        for (k, v) in &self.items {
-            if max.is_none() || *v > max.as_ref().unwrap().1 {
-                max = Some((k, *v));
-            }
-        }
-
-        max
+        self.items
+            .iter()
+            .max_by(|a, b| Self::item_order(*a, *b))
+            .map(|(k, v)| (k, *v))
     }
 
     pub fn get_min_item(&self) -> Option<(&InkListItem, i32)> {
-        let mut min: Option<(&InkListItem, i32)> = None;
-
-        for (k, v) in &self.items {
-            if min.is_none() || *v < min.as_ref().unwrap().1 {
-                min = Some((k, *v));
-            }
-        }
-
-        min
+        self.items
+            .iter()
+            .min_by(|a, b| Self::item_order(*a, *b))
+            .map(|(k, v)| (k, *v))
     }
 
     pub fn set_initial_origin_names(&self, initial_origin_names: Vec<String>) {
